@@ -75,6 +75,38 @@ func intCandidates(t types.Type) []*big.Int {
 	return out
 }
 
+// enumValues: the declared constants of a named integer type (plus the neighbours of their range)
+func enumValues(t types.Type) []*big.Int {
+	n, ok := types.Unalias(t).(*types.Named)
+	if !ok || n.Obj().Pkg() == nil {
+		return nil
+	}
+	var out []*big.Int
+	var lo, hi *big.Int
+	sc := n.Obj().Pkg().Scope()
+	for _, name := range sc.Names() {
+		c, ok := sc.Lookup(name).(*types.Const)
+		if !ok || !types.Identical(c.Type(), t) {
+			continue
+		}
+		v, ok := new(big.Int).SetString(c.Val().ExactString(), 10)
+		if !ok {
+			continue
+		}
+		out = append(out, v)
+		if lo == nil || v.Cmp(lo) < 0 {
+			lo = v
+		}
+		if hi == nil || v.Cmp(hi) > 0 {
+			hi = v
+		}
+	}
+	if len(out) < 2 || len(out) > 40 {
+		return nil
+	}
+	return append(out, new(big.Int).Sub(lo, big.NewInt(1)), new(big.Int).Add(hi, big.NewInt(1)))
+}
+
 func mintCandidates() []*big.Int {
 	var out []*big.Int
 	out = append(out, nil) // the nil Int
@@ -152,6 +184,10 @@ func candidatesFor(t types.Type, pkg *types.Package, imports map[string]string, 
 		}
 	case b.Info()&types.IsInteger != 0:
 		cands := intCandidates(t)
+		if ev := enumValues(t); len(ev) > 0 {
+			// an enumeration (named integer type with declared constants): its values, one below, one above
+			cands = ev
+		}
 		bits, signed, _ := intBits(t)
 		for _, n := range extraInts {
 			if n == nil {
@@ -603,7 +639,11 @@ func dropQuantified(prefix string) string {
 	var b strings.Builder
 	for _, l := range strings.Split(prefix, "\n") {
 		if strings.HasPrefix(l, "(assert ") && (strings.Contains(l, "(forall ") || strings.Contains(l, "(exists ")) {
-			continue
+			// the axioms of the evaluable parsing vocabulary stay (dec/atoi round trips): they are what turns the
+			// ground facts of the harness into contradictions; everything else quantified goes
+			if !(mentions(l, evaluableVocab) && !strings.Contains(l, "!q") && !strings.Contains(l, "~") && !strings.Contains(l, "!f")) {
+				continue
+			}
 		}
 		b.WriteString(l)
 		b.WriteByte('\n')
